@@ -1096,7 +1096,7 @@ func (interp *Interpreter) cfg(root *node, sc *scope, importPath, pkgName string
 				n.typ = dest.typ
 				n.findex = dest.findex
 				n.level = dest.level
-			case n.anc.kind == returnStmt:
+			case isResultStore(n, sc):
 				// To avoid a copy in frame, if the result is to be returned, store it directly
 				// at the frame location reserved for output arguments.
 				n.findex = childPos(n)
@@ -1350,7 +1350,7 @@ func (interp *Interpreter) cfg(root *node, sc *scope, importPath, pkgName string
 				wireChild(n)
 				if typ := c0.typ; len(typ.ret) > 0 {
 					n.typ = typ.ret[0]
-					if n.anc.kind == returnStmt && n.typ.id() == sc.def.typ.ret[0].id() {
+					if isResultStore(n, sc) && n.typ.id() == sc.def.typ.ret[0].id() {
 						// Store the result directly to the return value area of frame.
 						// It can be done only if no type conversion at return is involved.
 						n.findex = childPos(n)
@@ -1384,7 +1384,7 @@ func (interp *Interpreter) cfg(root *node, sc *scope, importPath, pkgName string
 					case "unsafe.alignOf", "unsafe.Offsetof", "unsafe.Sizeof":
 						n.gen = nop
 					}
-				case n.anc.kind == returnStmt:
+				case isResultStore(n, sc) && childPos(n) == 0:
 					// Store result directly to frame output location, to avoid a frame copy.
 					n.findex = 0
 				case bname == "cap" && (isInConstOrTypeDecl(n) || constLen(n.child[1])):
@@ -1481,13 +1481,18 @@ func (interp *Interpreter) cfg(root *node, sc *scope, importPath, pkgName string
 						// Use the original unwrapped function type, to allow future field and
 						// methods resolutions, otherwise impossible on the opaque bin type.
 						n.typ = funcType.ret[0]
-						n.findex = sc.add(n.typ)
-						for i := 1; i < len(funcType.ret); i++ {
-							sc.add(funcType.ret[i])
+						if isResultStore(n, sc) && n.typ.id() == sc.def.typ.ret[0].id() {
+							// Store the result directly to the return value area of frame.
+							n.findex = childPos(n)
+						} else {
+							n.findex = sc.add(n.typ)
+							for i := 1; i < len(funcType.ret); i++ {
+								sc.add(funcType.ret[i])
+							}
 						}
 					} else {
 						n.typ = valueTOf(typ.Out(0))
-						if n.anc.kind == returnStmt {
+						if isResultStore(n, sc) {
 							n.findex = childPos(n)
 						} else {
 							n.findex = sc.add(n.typ)
@@ -1540,7 +1545,7 @@ func (interp *Interpreter) cfg(root *node, sc *scope, importPath, pkgName string
 				}
 				if typ := c0.typ; len(typ.ret) > 0 {
 					n.typ = typ.ret[0]
-					if n.anc.kind == returnStmt && n.typ.id() == sc.def.typ.ret[0].id() {
+					if isResultStore(n, sc) && n.typ.id() == sc.def.typ.ret[0].id() {
 						// Store the result directly to the return value area of frame.
 						// It can be done only if no type conversion at return is involved.
 						n.findex = childPos(n)
@@ -2489,7 +2494,7 @@ func (interp *Interpreter) cfg(root *node, sc *scope, importPath, pkgName string
 				n.typ = dest.typ
 				n.findex = dest.findex
 				n.level = dest.level
-			case n.anc.kind == returnStmt:
+			case isResultStore(n, sc):
 				pos := childPos(n)
 				n.typ = sc.def.typ.ret[pos]
 				n.findex = pos
@@ -3288,6 +3293,14 @@ func mustReturnValue(n *node) bool {
 		}
 	}
 	return true
+}
+
+// isResultStore returns true if n is an operand of a return statement whose value can be
+// computed directly at the frame location of the result. All the operands of a return are
+// evaluated before the results are set: with several operands and named results, the
+// value of a result can still be used by another operand.
+func isResultStore(n *node, sc *scope) bool {
+	return n.anc.kind == returnStmt && (len(n.anc.child) == 1 || mustReturnValue(sc.def.child[2]))
 }
 
 func isRegularCall(n *node) bool {
